@@ -5,15 +5,15 @@
  "bound": "generated test modules through Example.run_inline: C01 value trees depth<=2 (quick)/3 (thorough), width<=3, 6 operations x 4 placements + multi-value snapshots, flags=create; C02 (odd old text, new value) pairs depth<=2/3 incl. two-snapshot bodies, flags=create,fix; oracle = rewritten module compiles and re-runs green with snapshot := identity",
  "input": {
   "prop": "C02",
-  "old": "[(0,)]",
-  "new": "[(0,), (0,)]",
+  "old": "[{}, (), (1, \"a\")]",
+  "new": "[{}, (1, 'a')]",
   "op": "eq",
   "shape": "two_fix",
   "placement": "assert",
-  "old2": "{\n        str('b'): -5,\n    }",
-  "new2": "{'b': ' pad '}"
+  "old2": "NT(a=+1, b=None)",
+  "new2": "[NT(a=1, b=None)]"
  },
- "detail": "a test raised during the create,fix run: RuntimeError:\ngenerator raised StopIteration\nsource:\ndef test_a():\n    v1 = [(0,), (0,)]\n    v2 = {'b': ' pad '}\n    assert v1 == snapshot([(0,)])\n    assert v2 == snapshot({\n        str('b'): -5,\n    })\n\nrewritten:\ndef test_a():\n    v1 = [(0,), (0,)]\n    v2 = {'b': ' pad '}\n    assert v1 == snapshot([(0,)])\n    assert v2 == snapshot({\n        str('b'): -5,\n    })\n"
+ "detail": "[other] re-run with snapshot := identity is not green: test_a: TypeError: NT.__new__() missing 1 required positional argument: 'b'\nsource:\ndef test_a():\n    v1 = [{}, (1, 'a')]\n    v2 = [NT(a=1, b=None)]\n    assert v1 == snapshot([{}, (), (1, \"a\")])\n    assert v2 == snapshot(NT(a=+1, b=None))\n\nrewritten:\ndef test_a():\n    v1 = [{}, (1, 'a')]\n    v2 = [NT(a=1, b=None)]\n    assert v1 == snapshot([{}, (1, \"a\")])\n    assert v2 == snapshot([NT(a=1)])\n"
 }
 """
 
@@ -65,7 +65,7 @@ def rerun_identity(src):
     finally:
         inline_snapshot.snapshot = real
 
-SRC = "from inline_snapshot import snapshot\n\n\n# ---- case ----\ndef test_a():\n    v1 = [(0,), (0,)]\n    v2 = {'b': ' pad '}\n    assert v1 == snapshot([(0,)])\n    assert v2 == snapshot({\n        str('b'): -5,\n    })\n"
+SRC = 'from inline_snapshot import snapshot\nfrom collections import namedtuple\n\n\nNT = namedtuple("NT", "a b")\n\n\n# ---- case ----\ndef test_a():\n    v1 = [{}, (1, \'a\')]\n    v2 = [NT(a=1, b=None)]\n    assert v1 == snapshot([{}, (), (1, "a")])\n    assert v2 == snapshot(NT(a=+1, b=None))\n'
 FLAGS = 'create,fix'
 after, raised = run_inline({'test_something.py': SRC}, FLAGS, cwd_files={})
 new = after['test_something.py']
